@@ -10,6 +10,10 @@ mod c12;
 mod c16;
 mod c18;
 mod c19;
+mod c19c;
+#[path = "../../schedmc/src/explore.rs"]
+#[allow(dead_code)]
+mod explore;
 mod te;
 
 fn main() {
